@@ -6,6 +6,7 @@ import (
 	"fmt"
 	"math/big"
 	"sort"
+	"strings"
 	"sync"
 
 	cbor "github.com/fxamacker/cbor/v2"
@@ -427,8 +428,9 @@ type seedT struct {
 }
 
 type corpusT struct {
-	seeds []seedT
-	lds   []reflds.Seed
+	seeds        []seedT
+	lds          []reflds.Seed
+	thoroughOnly []string
 }
 
 var ctorOfKind = map[reflds.Kind]string{
@@ -698,6 +700,35 @@ func buildCorpus(c *vc.Ctx) (*corpusT, error) {
 		aa := getSess("aaec")
 		co.add("aa/dg15+signature/ec", joinPair(aa.Files["dg15"], aa.Doc.Session.ActiveAuthResult.Evidence.Signature), nil, []string{"activeauth.ValidateActiveAuthSignature"})
 	}
-	sort.SliceStable(co.seeds, func(i, j int) bool { return false })
+	if c.Quick() {
+		// near-duplicates of seeds that stay (same parsers, same structure): thorough only
+		var keep []seedT
+		for _, sd := range co.seeds {
+			n := sd.Name
+			if strings.Contains(n, "var/SOD-") || strings.HasSuffix(n, "SOD-indef-outer") || n == "refpki/pss/csca-cert" || n == "refpki/pss/master-list" ||
+				n == "refpki/pss/issuer-name" || n == "refpki/pss/dg1-in-document" || n == "refpki/pss/ds-spki" || n == "refpki/ec/issuer-name" || n == "refpki/ec/dg1-in-document" {
+				co.thoroughOnly = append(co.thoroughOnly, n)
+				continue
+			}
+			keep = append(keep, sd)
+		}
+		co.seeds = keep
+	}
+	// sweep order: the small seeds that are the only genuine input of their entry points first, the large CMS / LDS
+	// files (whose parsers also see the refpki and session variants) last, so that a deadline cuts redundancy first
+	rank := func(n string) int {
+		switch {
+		case strings.HasPrefix(n, "mrz/"), strings.HasPrefix(n, "sm/"), strings.HasPrefix(n, "sig/"), strings.HasPrefix(n, "spki/"), strings.HasPrefix(n, "aa/"):
+			return 0
+		case strings.HasPrefix(n, "session/"):
+			return 1
+		case strings.HasPrefix(n, "cbor/"):
+			return 2
+		case strings.HasPrefix(n, "refpki/"):
+			return 3
+		}
+		return 4
+	}
+	sort.SliceStable(co.seeds, func(i, j int) bool { return rank(co.seeds[i].Name) < rank(co.seeds[j].Name) })
 	return co, nil
 }
